@@ -34,6 +34,18 @@ func normCond(cond ssa.Value) (atomKey, bool) {
 		break
 	}
 	if b, ok := cond.(*ssa.BinOp); ok {
+		// b == true, b != false, ... (the switch-on-a-boolean form): the boolean itself
+		if b.Op == token.EQL || b.Op == token.NEQ {
+			for _, pr := range [][2]ssa.Value{{b.X, b.Y}, {b.Y, b.X}} {
+				if cv, isC := constBool(pr[1]); isC {
+					if _, otherConst := pr[0].(*ssa.Const); !otherConst {
+						k, p2 := normCond(pr[0])
+						want := cv == (b.Op == token.EQL) // cond is true iff pr[0] == want
+						return k, pol == (p2 == want)
+					}
+				}
+			}
+		}
 		x, y := canon(stripKeepTypedNil(b.X)), canon(stripKeepTypedNil(b.Y))
 		switch b.Op {
 		case token.EQL, token.NEQ:
@@ -254,6 +266,19 @@ func (p *Path) RootSite(i int, ins ssa.Instruction) ssa.Instruction {
 		fr = p.frames[fr].parent
 	}
 	return p.frames[fr].call
+}
+
+// SiteChain lists ins followed by the inlined calls it was reached through, innermost first: the
+// instruction's own position and every call site that encloses it on this path.
+func (p *Path) SiteChain(i int, ins ssa.Instruction) []ssa.Instruction {
+	out := []ssa.Instruction{ins}
+	if p.segFrame == nil || i >= len(p.segFrame) {
+		return out
+	}
+	for fr := p.segFrame[i]; fr != 0; fr = p.frames[fr].parent {
+		out = append(out, p.frames[fr].call)
+	}
+	return out
 }
 
 // Exit returns the final instruction (Return, Panic) of the path.
